@@ -18,14 +18,17 @@ from vlib.verdict import Case
 
 PROPERTY = 'C17'
 MANIFEST = {
- 'level_text': 'Lean 4 theorems about a model of utils.file.AtomicFile over an explicit file-system state with process-side write buffers (every primitive call is one step; a crash keeps the disk and drops the buffers): for every old content, every chunking of the new content, every buffering schedule, every tmp/backup configuration and every crash index the target is the old or the new version (crash_atomic), also along arbitrary histories of completed / aborted / killed flushes (history_versions); a completed flush installs exactly the new content; rollback never touches the target; temp and backup names differ from the target name. The model is tied to /repo by extraction (call order and tests of AtomicFile.close/rollback/__init__, defaults, every call site in ircdb/registry/dbi) and by a differential run in which the real flush code of the six callers is killed (fork + os._exit) before and after every file-system call and the bytes found on disk are compared with the model state at that index; the property statement (bytes are old or new, the real loader accepts them, only the target is read) is evaluated on the implementation at every crash point.',
- 'level_note': 'Trusted: Lean kernel; axioms propext/Classical.choice/Quot.sound only; harness/extractors/atomicfile.py; the CrashBox wrappers (a file-system call the wrappers do not see is not a crash point); POSIX semantics assumed by the model: rename within one file system is atomic, open(p,"a") does not change existing content, process death loses exactly the user-space buffers (no power loss, no fsync reasoning). Modelled and proved: AtomicFile.__init__/write/writelines/close/rollback/__del__, shutil.copy (backup) and shutil.move call sequences, name construction (os.path.join/basename). Callers are exercised (their write patterns are arbitrary chunk lists in the model); loaders are exercised only.',
+ 'level_text': 'Lean 4 theorems about a model of utils.file.AtomicFile over an explicit file-system state with process-side write buffers (every primitive call is one step; a crash keeps the disk and drops the buffers): for every old content, every chunking of the new content, every buffering schedule, every tmp/backup configuration and every crash index the target is the old or the new version (crash_atomic), also along arbitrary histories of completed / aborted / killed flushes (history_versions) and, file by file, when several files are flushed in a row by world.flush() (multi_flush_atomic, files_independent); a completed flush installs exactly the new content; rollback never touches the target; temp and backup names differ from the target name; generated inventories show that the only AtomicFile call sites of ircdb/registry/dbi are the modelled callers and that nothing else in src/ opens a file for writing except a fixed list of record-level / journal writers (atomic_sites_cover, direct_writers_known), of which dbi.FlatfileMapping.add/set/remove are modelled separately (three-state theorem flat_add_states, flat_remove_atomic; finding C17-inplace-record-writers). The model is tied to /repo by extraction (call order and tests of AtomicFile.close/rollback/__init__, defaults, every call site in ircdb/registry/dbi) and by a differential run in which the real flush code of the six callers is killed (fork + os._exit) before and after every file-system call and the bytes found on disk are compared with the model state at that index; the property statement (bytes are old or new, the real loader accepts them, only the target is read) is evaluated on the implementation at every crash point.',
+ 'level_note': 'Trusted: Lean kernel; axioms propext/Classical.choice/Quot.sound only; harness/extractors/atomicfile.py; the CrashBox wrappers (a file-system call the wrappers do not see is not a crash point); POSIX semantics assumed by the model: rename within one file system is atomic, open(p,"a") does not change existing content, process death loses exactly the user-space buffers (no power loss, no fsync reasoning). Modelled and proved: AtomicFile.__init__/write/writelines/close/rollback/__del__, shutil.copy (backup) and shutil.move call sequences, name construction (os.path.join/basename). Callers are exercised (their write patterns are arbitrary chunk lists in the model): users, channels, networks, ignores, a synthetic registry, the full supybot registry (registry.close as scripts/supybot and Config.export call it), FlatfileMapping.vacuum, and world.flush() over five files incl. userdata.conf; loaders are exercised only. cdb / utils.transaction journals and DirMapping are inventoried and (DirMapping) crash-run but not modelled.',
  'technique': 'Lean 4 proof (invariants over call sequences, all crash indices) + source extraction + differential crash injection with real process death',
  'design_ref': 'DESIGN.md §6 C17',
 }
 THEOREMS = ['C17.crash_atomic', 'C17.flush_complete', 'C17.flush_skipped', 'C17.abort_safe',
-            'C17.history_versions', 'C17.temp_never_read', 'C17.backup_not_target', 'C17.temp_not_backup',
-            'C17.cross_device_counter', 'C17.close_calls_ok', 'C17.callers_ok']
+            'C17.history_versions', 'C17.multi_flush_atomic', 'C17.files_independent',
+            'C17.temp_never_read', 'C17.backup_not_target', 'C17.temp_not_backup',
+            'C17.cross_device_counter', 'C17.close_calls_ok', 'C17.callers_ok',
+            'C17.direct_writers_known', 'C17.atomic_sites_cover',
+            'C17.Flat.flat_add_states', 'C17.Flat.flat_remove_atomic', 'C17.Flat.flat_add_counter', 'C17.Flat.flat_set_counter']
 TRUSTED = ['Lean 4.33.0 kernel; axioms ⊆ {propext, Classical.choice, Quot.sound}',
            'harness/extractors/atomicfile.py (AtomicFile call order/tests/defaults/call sites → Gen/AtomicFile.lean)',
            'harness/c17.py CrashBox: wrappers around builtins.open/file.write/file.close/os.rename/os.replace/os.unlink/os.remove/os.sendfile/os.chmod/os.utime/os.path.getsize/os.path.exists; fork + os._exit',
@@ -251,7 +254,7 @@ def gen_state(r, kind, n):
                          'disc': {'irc%d.example' % j: r.randint(1, 2 ** 31) for j in range(r.randint(0, 2))}})
         elif kind == 'ignores':
             recs.append({'mask': r.choice(HOSTS) % (10 * i + r.randint(0, 9)), 'exp': r.choice([0, 0, 4102444800 + r.randint(0, 999)])})
-        elif kind == 'registry':
+        elif kind in ('registry', 'conf', 'confexport'):
             recs.append({'name': 'val%d' % i, 'type': r.choice(['String', 'Integer', 'Boolean', 'Words']),
                          'v': r.randint(0, 10 ** r.randint(0, 6)), 's': rng.text(r, 14, 'abc xyz', 0.1, 0.1).replace('\0', ''),
                          'help': r.random() < 0.5})
@@ -349,6 +352,24 @@ class Caller(object):
             return sorted(registry._cache.items())
         return (lambda: registry.close(g, path)), load
 
+    def conf(self, state, path, private=True):
+        """the bot's whole configuration: registry.close(conf.supybot, filename), as scripts/supybot does on exit"""
+        registry = self.b.registry; conf = self.b.conf
+        nick = 'bot' + ''.join(str(rec['v'] % 10) for rec in state)
+        words = [rec['name'] for rec in state]
+        def flush():
+            conf.supybot.nick.setValue(nick)
+            conf.supybot.nick.alternates.setValue(words)
+            registry.close(conf.supybot, path, private=private)
+        def load():
+            registry.open_registry(path, clear=True)
+            return [registry._cache.get('supybot.nick'), registry._cache.get('supybot.nick.alternates'), len(registry._cache)]
+        return flush, load
+
+    def confexport(self, state, path):
+        """Config.export: registry.close(conf.supybot, filename, private=False)"""
+        return self.conf(state, path, private=False)
+
     def flat(self, state, path):
         """FlatfileMapping.vacuum: the old file is what add/remove left; the new one has no dead records"""
         from supybot import dbi
@@ -367,6 +388,7 @@ class Caller(object):
         return flush, load
 
 KINDS = ['users', 'channels', 'networks', 'ignores', 'registry', 'flat']
+BIG_KINDS = ['conf', 'confexport']      # the real supybot registry: thousands of writes, crash points sampled
 
 # configurations: (name, tmp, backup, allowEmpty, exdev)
 CONFIGS = [('conf', 'tmp', 'backup', True, False),       # what conf.py installs: tmp and backup directories
@@ -747,6 +769,260 @@ def scenarios(ctx, root, r, thorough):
                 out.append(Scenario(root, kind, 'larger', gen_state(r, kind, 1), gen_state(r, kind, 2), cfg, outcome='abort'))
     return out
 
+# ------------------------------------------------------------------------------------------
+# world.flush(): several files written one after the other by the registered flushers
+# ------------------------------------------------------------------------------------------
+WORLD_FILES = ['users', 'channels', 'networks', 'ignores', 'userdata']
+
+def explore_world(b, callers, root, r, cfg, sample=None):
+    """the real world.flush() over users/channels/networks/ignores + world._flushUserData, killed at every
+    file-system call: each file must individually be its old or its new version, switch from old to new only
+    inside its own flush, and load.  Returns one Case per file (compared with the single-flush model) ."""
+    world = b.world
+    scs = {}
+    for k in WORLD_FILES:
+        sc = Scenario(root, k if k != 'userdata' else 'registry', 'world', None, None, cfg)
+        if k == 'userdata':
+            sc.target = os.path.join(root, 'conf', 'userdata.conf')
+        scs[k] = sc
+    carrier = scs['users']
+    olds = {k: gen_state(r, k, r.randint(0, 3)) for k in WORLD_FILES[:4]}
+    news = {k: gen_state(r, k, r.randint(0, 3)) for k in WORLD_FILES[:4]}
+    set_defaults(b, carrier)
+    def flushers_for(states):
+        fl = []
+        loads = {}
+        for k in WORLD_FILES[:4]:
+            f, l = getattr(callers, k)(states[k], scs[k].target)
+            fl.append(f); loads[k] = l
+        fl.append(world._flushUserData)
+        def load_userdata():
+            b.registry.open_registry(scs['userdata'].target, clear=True)
+            return sorted(b.registry._cache.items())
+        loads['userdata'] = load_userdata
+        return fl, loads
+    def action_for(states):
+        fl, loads = flushers_for(states)
+        def action():
+            b.conf.supybot.directories.conf.setValue(os.path.join(root, 'conf'))
+            saved = world.flushers[:]
+            world.flushers[:] = fl
+            try:
+                world.flush()
+            finally:
+                world.flushers[:] = saved
+        return action, loads
+    def read_all():
+        out = {}
+        for k, sc in scs.items():
+            try:
+                with _real_open(sc.target, 'rb') as f:
+                    out[k] = f.read()
+            except OSError:
+                out[k] = None
+        return out
+    # old versions
+    reset_dir(carrier, None, plain=True)
+    old_action, _ = action_for(olds)
+    in_child(lambda: run_flush(b, carrier, old_action, None, False))
+    old_bytes = read_all()
+    def restore():
+        reset_dir(carrier, None, plain=True)
+        for k, v in old_bytes.items():
+            if v is not None:
+                with _real_open(scs[k].target, 'wb') as f:
+                    f.write(v)
+    action, loads = action_for(news)
+    restore()
+    code, tr = in_child(lambda: run_flush(b, carrier, action, None, cfg[4]))
+    if not tr or 'events' not in tr:
+        raise RuntimeError('world trace run failed: %r %r' % (code, tr))
+    events = tr['events']; npoints = tr['points']
+    new_bytes = read_all()
+    def owner(e):
+        for k, sc in scs.items():
+            base = os.path.basename(sc.target)
+            if any(os.path.basename(p) == base or os.path.basename(p).startswith(base + '.') for p in e['p']):
+                return k
+        return None
+    own = [owner(e) for e in events]
+    order = [k for i, k in enumerate(own) if k is not None and (i == 0 or own[i - 1] != k)]
+    problems = {k: [] for k in WORLD_FILES}
+    if order != WORLD_FILES:
+        for k in WORLD_FILES:
+            problems[k].append('the flushers did not run one after the other in registration order: %r' % order)
+    first = {k: min(i for i, o in enumerate(own) if o == k) for k in WORLD_FILES if k in own}
+    last = {k: max(i for i, o in enumerate(own) if o == k) for k in WORLD_FILES if k in own}
+    pts = list(range(npoints + 1))
+    if sample is not None and len(pts) > sample[1]:
+        keep = set([0, npoints])
+        for i, e in enumerate(events):
+            if e['k'] != 'write':
+                keep.update((2 * i, 2 * i + 1))
+        rest = [p for p in pts if p not in keep]
+        sample[0].shuffle(rest)
+        keep.update(rest[:max(0, sample[1] - len(keep))])
+        pts = sorted(keep)
+    loader_cache = {}
+    for p in pts:
+        restore()
+        code, _ = in_child(lambda: run_flush(b, carrier, action, p, cfg[4]))
+        got = read_all()
+        ev = p // 2
+        for k in WORLD_FILES:
+            t = got[k]; o = old_bytes[k]; n = new_bytes[k]
+            where = 'crash point %d of world.flush() (%s call #%d, in the flush of %s)' % (
+                p, 'before' if p % 2 == 0 else 'after', ev, own[ev] if ev < len(own) else 'nothing')
+            if not (t == o or t == n or (o is None and t in (None, b''))):
+                problems[k].append('%s: %s holds %r, neither its old (%r) nor its new (%r) version' % (
+                    where, os.path.basename(scs[k].target), None if t is None else t[:50], None if o is None else o[:50], None if n is None else n[:50]))
+            elif o != n and k in first:
+                # untouched before its own flush begins, done after it has ended
+                if ev < first[k] and t != o and not (o is None and t in (None, b'')):
+                    problems[k].append('%s: %s already changed before its flusher ran' % (where, os.path.basename(scs[k].target)))
+                if ev > last[k] and t != n:
+                    problems[k].append('%s: %s fell back after its flusher had finished' % (where, os.path.basename(scs[k].target)))
+            if t is not None and (k, t) not in loader_cache:
+                c2, res = in_child(lambda: run_load(b, scs[k], loads[k]))
+                loader_cache[(k, t)] = res or {'ok': False, 'err': 'loader child died'}
+            if t is not None and not loader_cache[(k, t)].get('ok'):
+                problems[k].append('%s: %s does not load: %s' % (where, os.path.basename(scs[k].target), loader_cache[(k, t)].get('err')))
+    out = []
+    for k in WORLD_FILES:
+        sc = scs[k]
+        sl = [e for e, o in zip(events, own) if o == k]
+        roles_order = []
+        ops = canon_events(sc, sl, roles_order)
+        roles = [[role(sc, q, roles_order) for q in e['p']] for e in sl]
+        line = build_model_line(sc, sl, roles, old_bytes[k], 'flush')
+        c = Case({'op': 'world.flush', 'file': os.path.basename(sc.target), 'old_states': olds, 'new_states': news,
+                  'config': cfg[0], 'tmpDir': cfg[1], 'backupDir': cfg[2], 'exdev': cfg[4], 'crash_points': len(pts),
+                  'calls': ops},
+                 impl=','.join(ops), oracle_ok=not problems[k], oracle_msg='; '.join(problems[k][:3]),
+                 tags=['world.flush', 'world:' + k, 'cfg:' + cfg[0]], kind='world')
+        out.append((c, line))
+    return out
+
+def build_model_line(sc, events, roles, old_bytes, outcome):
+    """the driver input describing one atomic write as observed (configuration, names, chunks with spills)"""
+    writes = [(bytes.fromhex(e['d']), (e['after'][0] or 0) - (e['before'][0] or 0)) for e, rl in zip(events, roles)
+              if e['k'] == 'write' and rl[0] == 't']
+    seen_path = {}
+    for e, rl in zip(events, roles):
+        for q, r_ in zip(e['p'], rl):
+            seen_path.setdefault(r_, q)
+    token = TEMP_RE.match(os.path.basename(seen_path['t'])).group(2) if 't' in seen_path else ''
+    token2 = TEMP_RE.match(os.path.basename(seen_path['s'])).group(2) if 's' in seen_path else None
+    now = int(BACKUP_RE.match(os.path.basename(seen_path['b'])).group(2)) if 'b' in seen_path else 0
+    tok2 = token2 or ('f' * 40 if token != 'f' * 40 else 'e' * 40)
+    mb = '0' if sc.kind == 'flat' else '1'
+    return '\t'.join([outcome, wire.enc(sc.target), wire.enc_opt(sc.tmpdir()), wire.enc_opt(sc.backupdir()), mb,
+                      '1' if sc.allow_empty else '0', wire.enc(token), wire.enc(tok2), wire.enc(str(now)),
+                      '0' if sc.exdev else '1', str(BLK), '~' if old_bytes is None else old_bytes.hex(),
+                      '-' if not writes else ','.join('%s:%d' % (d.hex(), n) for d, n in writes)])
+
+# ------------------------------------------------------------------------------------------
+# the record-level writers that do not go through AtomicFile (dbi.FlatfileMapping / DirMapping): crash run
+# ------------------------------------------------------------------------------------------
+def explore_inplace(b, root, r):
+    """kill FlatfileMapping.add/set/remove and DirMapping.add/set at every file-system call and look at what
+    a fresh mapping object then reads.  These are not flushes (FlatfileMapping.flush is a no-op: every call
+    writes in place), so this is reported in the evidence, classified, and never compared with the AtomicFile
+    model.  Returns a list of dicts."""
+    from supybot import dbi
+    out = []
+    sc = Scenario(root, 'flat', 'inplace', None, None, CONFIGS[1])
+    def seed():
+        m = dbi.FlatfileMapping(sc.target, maxSize=10 ** 4)
+        for s_ in ('alpha', 'beta', 'gamma'):
+            m.add(s_)
+    def dump():
+        m = dbi.FlatfileMapping(sc.target, maxSize=10 ** 4)
+        recs = [list(x) for x in m]
+        ids = [i for i, _ in recs]
+        return {'next': m.currentId, 'records': recs, 'dup': len(ids) != len(set(ids)),
+                'next_used': m.currentId in ids}
+    ops = {'add': lambda: dbi.FlatfileMapping(sc.target, maxSize=10 ** 4).add('delta'),
+           'set': lambda: dbi.FlatfileMapping(sc.target, maxSize=10 ** 4).set(2, 'BETA'),
+           'remove': lambda: dbi.FlatfileMapping(sc.target, maxSize=10 ** 4).remove(2)}
+    reset_dir(sc, None, plain=True)
+    in_child(seed)
+    with _real_open(sc.target, 'rb') as f:
+        old = f.read()
+    _, d_old = in_child(dump)
+    for name, fn in ops.items():
+        reset_dir(sc, old, plain=True)
+        code, tr = in_child(lambda: run_flush(b, sc, fn, None, False))
+        with _real_open(sc.target, 'rb') as f:
+            new = f.read()
+        _, d_new = in_child(dump)
+        states = []
+        for p in range((tr or {}).get('points', 0) + 1):
+            reset_dir(sc, old, plain=True)
+            in_child(lambda: run_flush(b, sc, fn, p, False))
+            with _real_open(sc.target, 'rb') as f:
+                t = f.read()
+            if t == old: states.append('old')
+            elif t == new: states.append('new')
+            else:
+                _, d = in_child(dump)
+                states.append({'bytes': t.decode('latin-1'), 'reads_as': d})
+        inter = [x for x in states if not isinstance(x, str)]
+        seq = []
+        for x in states:
+            h = old.hex() if x == 'old' else new.hex() if x == 'new' else x['bytes'].encode('latin-1').hex()
+            if not seq or seq[-1] != h:
+                seq.append(h)
+        off = old.index(b'0002:')
+        mline = {'add': 'flatadd\t%s\t%s\t%s' % (old.hex(), b'0004:delta\n'.hex(), b'0005'.hex()),
+                 'set': 'flatset\t%s\t%d\t%s\t%s' % (old.hex(), off, b'----'.hex(), b'0002:BETA\n'.hex()),
+                 'remove': 'flatremove\t%s\t%d\t%s' % (old.hex(), off, b'----'.hex())}[name]
+        out.append({'writer': 'dbi.FlatfileMapping.' + name, 'state_sequence': seq, 'model_line': mline, 'calls': [e['k'] for e in (tr or {}).get('events', [])],
+                    'crash_points': len(states), 'intermediate_states': len(inter),
+                    'example_intermediate': inter[0] if inter else None,
+                    'next_id_already_used': any(x['reads_as'] and x['reads_as'].get('next_used') for x in inter),
+                    'old_reads_as': d_old, 'new_reads_as': d_new})
+    # DirMapping: one file per record + 'max'
+    droot = os.path.join(root, 'conf', 'dirmap')
+    def dseed():
+        os.makedirs(droot, exist_ok=True)
+        m = dbi.DirMapping(droot)
+        m.add('alpha'); m.add('beta')
+    def ddump():
+        m = dbi.DirMapping(droot)
+        files = sorted(os.listdir(droot))
+        return {'files': files, 'contents': {f: _real_open(os.path.join(droot, f)).read() for f in files}}
+    for name, fn in {'add': lambda: dbi.DirMapping(droot).add('gamma'), 'set': lambda: dbi.DirMapping(droot).set(1, 'ALPHA-longer')}.items():
+        def fresh():
+            reset_dir(sc, None, plain=True)
+            in_child(dseed)
+        fresh()
+        _, d_old = in_child(ddump)
+        code, tr = in_child(lambda: run_flush(b, sc, fn, None, False))
+        _, d_new = in_child(ddump)
+        inter = []
+        npts = (tr or {}).get('points', 0)
+        for p in range(npts + 1):
+            fresh()
+            in_child(lambda: run_flush(b, sc, fn, p, False))
+            _, d = in_child(ddump)
+            if d != d_old and d != d_new:
+                inter.append(d)
+        out.append({'writer': 'dbi.DirMapping.' + name, 'calls': [e['k'] for e in (tr or {}).get('events', [])],
+                    'crash_points': npts + 1, 'intermediate_states': len(inter),
+                    'example_intermediate': inter[0] if inter else None, 'old_reads_as': d_old, 'new_reads_as': d_new})
+    return out
+
+def big_scenarios(root, r, thorough):
+    out = []
+    for kind in BIG_KINDS:
+        for cfg in ((CONFIGS[0], CONFIGS[1]) if thorough else (CONFIGS[0],)):
+            out.append(Scenario(root, kind, 'same', gen_state(r, kind, 2), gen_state(r, kind, 3), cfg))
+        if thorough:
+            out.append(Scenario(root, kind, 'created', None, gen_state(r, kind, 2), CONFIGS[0]))
+            out.append(Scenario(root, kind, 'same', gen_state(r, kind, 2), gen_state(r, kind, 2), CONFIGS_X[0]))
+    return out
+
 def get_bot():
     b = bot.full(plugins=())
     import supybot.utils.file as uf
@@ -801,7 +1077,7 @@ def explore(ctx, thorough, seed_stream='c17', only=None, nworkers=12):
     callers = Caller(b)
     r = rng.make(seed_stream)
     base = os.path.join(bot.scratch(), 'c17')
-    scs = scenarios(ctx, None, r, thorough)
+    scs = scenarios(ctx, None, r, thorough) + big_scenarios(None, r, thorough)
     if only is not None:
         scs = [s for s in scs if only(s)]
     seeds = [r.getrandbits(32) for _ in scs]
@@ -811,7 +1087,7 @@ def explore(ctx, thorough, seed_stream='c17', only=None, nworkers=12):
         root = os.path.join(base, 'w%d' % w)
         os.makedirs(root, exist_ok=True)
         sc.bind(root)
-        samp = None if thorough else (random.Random(sd), 90)
+        samp = ((random.Random(sd), 400) if sc.kind in BIG_KINDS else None) if thorough else (random.Random(sd), 75)
         c, line, names, seen = explore_scenario(b, callers, sc, work.cache, samp)
         return {'case': c.as_dict(), 'line': line, 'names': names, 'seen': seen, 'target': sc.target,
                 'td': sc.tmpdir(), 'bd': sc.backupdir()}
@@ -839,7 +1115,7 @@ def explore(ctx, thorough, seed_stream='c17', only=None, nworkers=12):
 
 def fill_model(clp):
     cases, lines, pend = clp
-    outs = wire.run_driver(PROPERTY, lines)
+    outs = wire.run_driver(PROPERTY, lines)       # one line per entry of pend (a case may have no model line)
     for (c, f), o in zip(pend, outs):
         c.model = f(o)
     return cases
@@ -847,9 +1123,74 @@ def fill_model(clp):
 def finding_status(ctx):
     return {}
 
+F_INPLACE = 'C17-inplace-record-writers'
+
+def dedup(xs):
+    out = []
+    for x in xs:
+        if not out or out[-1] != x:
+            out.append(x)
+    return out
+
+def extra_cases(ctx, thorough):
+    """world.flush() over five files, and the in-place record writers; returns (cases, lines, pend, evidence extras)"""
+    b = get_bot()
+    callers = Caller(b)
+    r = rng.make('c17-world')
+    root = os.path.join(bot.scratch(), 'c17x')
+    os.makedirs(root, exist_ok=True)
+    cases = []; lines = []; pend = []
+    saved = (b.utils_file.AtomicFile.default.tmpDir, b.utils_file.AtomicFile.default.backupDir,
+             b.utils_file.AtomicFile.default.allowEmptyOverwrite, b.utils_file.AtomicFile.default.makeBackupIfSmaller)
+    saved_conf = b.conf.supybot.directories.conf()
+    try:
+        cfgs = [CONFIGS[0], CONFIGS[1], CONFIGS_X[0]] if thorough else [CONFIGS[0]]
+        for rep in range(3 if thorough else 1):
+            for cfg in cfgs:
+                for c, line in explore_world(b, callers, root, r, cfg, None if thorough else (r, 110)):
+                    cases.append(c); lines.append(line); pend.append((c, lambda o: o.split(';')[0]))
+        inplace = explore_inplace(b, root, r)
+    finally:
+        (b.utils_file.AtomicFile.default.tmpDir, b.utils_file.AtomicFile.default.backupDir,
+         b.utils_file.AtomicFile.default.allowEmptyOverwrite, b.utils_file.AtomicFile.default.makeBackupIfSmaller) = saved
+    for x in inplace:
+        bad = x['intermediate_states'] > 0
+        msg = ''
+        if bad:
+            msg = ('%s killed between two of its file-system calls leaves a third state that is neither the old nor the new '
+                   'database: %r [known class: in-place record writers]' % (x['writer'], x['example_intermediate']))
+        c = Case({'op': 'inplace', 'writer': x['writer'], 'calls': x['calls'], 'crash_points': x['crash_points']},
+                 impl=','.join(x['state_sequence']) if 'state_sequence' in x else None, oracle_ok=not bad, oracle_msg=msg,
+                 tags=['inplace', x['writer']], kind='inplace', finding=F_INPLACE if bad else None)
+        cases.append(c)
+        if 'model_line' in x:
+            lines.append(x['model_line']); pend.append((c, lambda o: ','.join(dedup(o.split(',')))))
+        else:
+            c.impl = None
+    from extractors import writers as wx
+    inv = []
+    try:
+        import glob
+        from vlib import REPO
+        for rel in sorted(set(['src/dbi.py', 'src/cdb.py', 'src/utils/transaction.py', 'src/utils/file.py', 'src/httpserver.py',
+                               'src/registry.py', 'src/ircdb.py', 'src/world.py', 'src/conf.py', 'plugins/__init__.py'])):
+            d, a = wx._scan(rel)
+            inv += [{'file': f, 'function': fn, 'call': call, 'mode': m, 'via': 'direct'} for f, fn, call, m in d]
+            inv += [{'file': f, 'function': fn, 'via': 'AtomicFile'} for f, fn in a]
+    except Exception as e:
+        inv = [{'error': str(e)}]
+    extras = {'writers_inventory': inv,
+              'inplace_crash_runs': [{k: v for k, v in x.items() if k not in ('model_line',)} for x in inplace]}
+    return cases, lines, pend, extras
+
+def finding_status(ctx):
+    return {}
+
 def run(ctx):
-    build = leanbuild.ensure(PROPERTY, THEOREMS, thorough=ctx.thorough, extractors=['AtomicFile'])
+    build = leanbuild.ensure(PROPERTY, THEOREMS, thorough=ctx.thorough, extractors=['AtomicFile', 'Writers'])
     clp = explore(ctx, ctx.thorough)
+    xc, xl, xp, extras = extra_cases(ctx, ctx.thorough)
+    clp = (clp[0] + xc, clp[1] + xl, clp[2] + xp)
     cases = fill_model(clp) if build.driver_ok else clp[0]
     def search(disagreements, broken):
         os.environ['VERIF_SEED'] = str(ctx.seed + 7919)
@@ -858,13 +1199,17 @@ def run(ctx):
         finally:
             os.environ['VERIF_SEED'] = str(ctx.seed)
         return [c for c in more if c.oracle_ok is False]
+    hit = [c for c in cases if c.finding == F_INPLACE and c.oracle_ok is False]
+    fstatus = {F_INPLACE: (bool(hit), 'dbi.FlatfileMapping.add / .set (the persistence path of every plugin database using the flat mapping; '
+                           'FlatfileMapping.flush is a no-op) write in place: killed between the record write and the counter / second write '
+                           'they leave a database that is neither the old nor the new one (%s)' % (hit[0].oracle_msg[:300] if hit else 'no longer reproduces'))}
+    extras.update({'crash_points_killed': sum(c.input.get('crash_points', 0) for c in cases),
+                   'scenarios': len([c for c in cases if c.kind != 'names'])})
     return verdict.conclude(PROPERTY, ctx.tier, ctx.seed, build, cases, search=search, rule=RULE,
-                            finding_status=finding_status(ctx), trusted_base=TRUSTED,
+                            finding_status=fstatus, trusted_base=TRUSTED,
                             assumptions=['process death only (no power loss / fsync reasoning)', 'POSIX rename semantics',
                                          'Python asserts enabled', 'file contents below 8 MiB (one sendfile block)'],
-                            extra={'crash_points_killed': sum(c.input.get('crash_points', 0) for c in cases),
-                                   'scenarios': len([c for c in cases if c.kind != 'names'])},
-                            t0=ctx.t0)
+                            extra=extras, t0=ctx.t0)
 
 def replay(ctx, path):
     d = json.load(open(path))
